@@ -297,7 +297,31 @@ func (p *Parser) ParseUnaryExpression() ast.Expression {
 	}
 	p.NextToken()
 	expression.Right = p.expressionParseFn(p, UNARY)
+	if (expression.Token.Type == token.INCREMENT || expression.Token.Type == token.DECREMENT) && !p.checkAssignmentTarget(expression.Right, expression.Token) {
+		return nil
+	}
 	return expression
+}
+
+// checkAssignmentTarget reports an error (at the operator) unless the operand
+// of an assignment, ++ or -- is something that can be assigned to: an
+// identifier or a member access, possibly in parentheses. Operands that
+// already failed to parse (nil) and nodes of plugins are left alone.
+func (p *Parser) checkAssignmentTarget(target ast.Expression, operator token.Token) bool {
+	for {
+		switch t := target.(type) {
+		case *ast.GroupedExpression:
+			target = t.Expression
+			continue
+		case *ast.IntegerLiteral, *ast.FloatLiteral, *ast.StringLiteral, *ast.MultiStringLiteral,
+			*ast.BooleanLiteral, *ast.NullLiteral, *ast.BinaryExpression, *ast.UnaryExpression,
+			*ast.PostfixExpression, *ast.CallExpression, *ast.AssignmentExpression,
+			*ast.CompoundAssignmentExpression, *ast.FunctionExpression, *ast.ArrayLiteral, *ast.ObjectLiteral:
+			p.AddErrorAtToken(fmt.Sprintf("invalid assignment target for %s", operator.Literal), operator)
+			return false
+		}
+		return true
+	}
 }
 
 func (p *Parser) ParsePostfixExpression(left ast.Expression) ast.Expression {
@@ -305,6 +329,9 @@ func (p *Parser) ParsePostfixExpression(left ast.Expression) ast.Expression {
 		Token:    p.CurrentToken,
 		Left:     left,
 		Operator: p.CurrentToken.Literal,
+	}
+	if !p.checkAssignmentTarget(left, expression.Token) {
+		return nil
 	}
 	return expression
 }
@@ -399,6 +426,9 @@ func (p *Parser) ParseAssignmentExpression(left ast.Expression) ast.Expression {
 		Token: p.CurrentToken,
 		Left:  left,
 	}
+	if !p.checkAssignmentTarget(left, expression.Token) {
+		return nil
+	}
 	p.NextToken()
 	expression.Value = p.ParseExpression()
 	return expression
@@ -408,6 +438,9 @@ func (p *Parser) ParseCompoundAssignmentExpression(left ast.Expression) ast.Expr
 	expression := &ast.CompoundAssignmentExpression{
 		Token: p.CurrentToken,
 		Left:  left,
+	}
+	if !p.checkAssignmentTarget(left, expression.Token) {
+		return nil
 	}
 	switch p.CurrentToken.Type {
 	case token.PLUS_ASSIGN:
